@@ -1,5 +1,5 @@
 #!/bin/sh
-# usage: tools/confirm_seed.sh <Cnn> <deliver-dir>
+# usage: tools/confirm_seed.sh <Cnn[suffix]> <deliver-dir>      (second-round changes: C19b, C19c, ...)
 # Confirms a seeded change in a fresh scratch worktree of /repo (current HEAD): patch applies, the existing test-suite
 # passes with it, the demonstration fails with it and passes without it.  Writes /verif/seeded/<id>/{patch.diff,demo*,notes.md,meta.json}
 # and removes the worktree.
@@ -29,7 +29,7 @@ import json, sys, subprocess
 i, clean, suite, mut, demo, here = sys.argv[1:7]
 notes = open(f'{here}/seeded/{i}/notes.md').read() if True else ''
 ok = clean == '0' and suite == '0' and mut != '0'
-meta = dict(property=i, confirmed=ok,
+meta = dict(property=i[:3], seed_id=i, confirmed=ok,
             repo_head=subprocess.run(['git', '-C', '/repo', 'rev-parse', '--short', 'HEAD'], capture_output=True, text=True).stdout.strip(),
             demo=demo, demo_exit_unchanged_tree=int(clean), test_suite_exit_with_change=int(suite), demo_exit_with_change=int(mut),
             what_ran=["fresh scratch worktree of /repo HEAD under /tmp (removed afterwards)",
